@@ -47,9 +47,37 @@ func (c *termCase) Term(field string) *term.Term {
 	return t
 }
 
-// runChecks evaluates every ["eq", a, b]; returns "" or the first failure.
+// bindDefs evaluates the ordered definitions [name, term]; a definition that cannot be
+// evaluated stays unbound (anything depending on it then fails).
+func (c *termCase) bindDefs(env *term.Env, field string) {
+	var defs [][]json.RawMessage
+	json.Unmarshal(c.Raw[field], &defs)
+	for _, d := range defs {
+		var name string
+		json.Unmarshal(d[0], &name)
+		t, err := term.Parse(d[1])
+		must(err)
+		if v, err := env.Eval(t); err == nil {
+			env.Vars[name] = v
+		} else {
+			delete(env.Vars, name)
+		}
+	}
+}
+
+// runChecks evaluates every ["eq"|"le", a, b]; returns "" or the first failure.
 func (c *termCase) runChecks(env *term.Env) string {
-	for i, ch := range c.Checks {
+	return runCheckList(env, c.Checks)
+}
+
+func (c *termCase) checkList(field string) [][]json.RawMessage {
+	var l [][]json.RawMessage
+	json.Unmarshal(c.Raw[field], &l)
+	return l
+}
+
+func runCheckList(env *term.Env, checks [][]json.RawMessage) string {
+	for i, ch := range checks {
 		var op string
 		json.Unmarshal(ch[0], &op)
 		a, err := term.Parse(ch[1])
@@ -60,6 +88,12 @@ func (c *termCase) runChecks(env *term.Env) string {
 		vb, e2 := env.Eval(b)
 		if e1 != nil || e2 != nil {
 			return fmt.Sprintf("check %d: cannot evaluate: %v %v", i+1, e1, e2)
+		}
+		if op == "le" {
+			if !va.IsInt() || !vb.IsInt() || va.N.Cmp(vb.N) > 0 {
+				return fmt.Sprintf("check %d: %s <= %s does not hold", i+1, va, vb)
+			}
+			continue
 		}
 		if !term.Equal(va, vb) {
 			return fmt.Sprintf("check %d: real code gives %s, specification says %s", i+1, va, vb)
